@@ -8,8 +8,10 @@ of `Banyan.C14.tstep` to completion* (`State.call`), one after the other – the
 sequential differential of DESIGN.md 6/C14 (ii).  Controller-level procedures (select, segments,
 remove, …) are the control flow of segment.go over several single-segment states.
 
-`drv_c14` models the repaired callers; `drv_c14 --legacy` models the callers as written
-(pin-if-active followed by an unconditional DecRef; `segments(true)` without unwinding).
+`drv_c14` models the callers AS WRITTEN at HEAD: pin-if-active followed by an unconditional DecRef
+(known finding F14a, `stray = true`) and `segments(ctx,true)` with unwinding (fix F14b).
+`drv_c14 --repaired` models the proposed repair of F14a (nobody DecRefs what he did not pin);
+`drv_c14 --legacy` additionally models `segments(ctx,true)` before fix F14b (no unwinding).
 -/
 
 namespace C14Drv
@@ -29,7 +31,8 @@ structure World where
   hook : Option (Nat × Nat) := none             -- armed: client, segment
   hookRes : String := ""
   hookD : Option Nat := none                    -- armed: delete segment i while it is being reopened
-  legacy : Bool := false
+  legacy : Bool := true                         -- F14a as written: unconditional DecRef after a conditional pin
+  legacyTick : Bool := false                    -- F14b before its fix: segments(true) without unwinding
   broken : Bool := false                        -- a model call was not enabled (driver bug)
 
 def b01 (b : Bool) : String := if b then "1" else "0"
@@ -280,7 +283,7 @@ def World.op (w : World) (o : String) : World × String :=
     let ids := w.listedIdx
     let inc := fun (w : World) i => w.incRef sys i
     let dec := fun (w : World) i => w.callHooked i sys .decRef
-    let r := if w.legacy then segmentsLoop_legacy inc w ids [] else segmentsLoop inc dec w ids []
+    let r := if w.legacyTick then segmentsLoop_legacy inc w ids [] else segmentsLoop inc dec w ids []
     match r with
     | (w, some tt) =>
       -- resetIndex on every segment that ended before the tick, then DecRef all
@@ -307,10 +310,10 @@ def freshSeg : State :=
   let s := (s.call sys (.touch 2)).getD s
   (s.call sys .decRef).getD s
 
-def World.create (k : Nat) (legacy : Bool) : World :=
+def World.create (k : Nat) (legacy legacyTick : Bool) : World :=
   { segs := Array.replicate k freshSeg, listed := Array.replicate k true, fail := Array.replicate k 0,
     held := Array.replicate nClients (Array.replicate k 0), peeked := Array.replicate nClients none,
-    legacy := legacy }
+    legacy := legacy, legacyTick := legacyTick }
 
 def validOp (k : Nat) (o : String) : Bool :=
   let dOk (c : Char) (m : Nat) := c.isDigit && digit c < m
@@ -324,14 +327,14 @@ def validOp (k : Nat) (o : String) : Bool :=
   | ['G'] | ['i'] | ['o'] | ['e'] | ['n'] | ['m'] | ['k'] | ['c'] | ['R'] => true
   | _ => false
 
-def handle (legacy : Bool) (line : String) : String :=
+def handle (legacy legacyTick : Bool) (line : String) : String :=
   match words line with
   | "stress" :: _ => "-"
   | _ :: k :: ops =>
     match k.toNat? with
     | some k =>
       if k < 1 || k > 6 || !(ops.all (validOp k)) then "bad-op" else
-      let w := World.create k legacy
+      let w := World.create k legacy legacyTick
       let (w, out) := ops.foldl (fun (acc : World × List String) o =>
         let (w, r) := acc.1.op o
         -- the hook is armed for the op that follows `h` only
@@ -345,4 +348,4 @@ def handle (legacy : Bool) (line : String) : String :=
 end C14Drv
 
 def main (args : List String) : IO Unit :=
-  runDriver (C14Drv.handle (args.contains "--legacy"))
+  runDriver (C14Drv.handle (!args.contains "--repaired") (args.contains "--legacy"))
